@@ -27,6 +27,7 @@ PATHS = [
     (['NK1'], 'NK1_4', 'XAD_1', 'SAD_1'),
     (['ADT_A01_PROCEDURE', 'PR1'], 'PR1_3', 'CE_2', None),
     (['ZIN'], 'ZIN_5', None, None),            # open-ended segment: any field index exists
+    (['OBX'], 'OBX_5', 'VARIES_2', None),      # a field of type varies: any component index exists
 ]
 NPATH = len(PATHS)
 NSPELL = 4
